@@ -81,7 +81,7 @@ def history_campaign(out, pid, plans, pclauses, antecedent, seed, mclauses=None,
         scope = plan["scope"]
         if plan.get("mc", True):
             r = C.model_check(scope, invariants=plan.get("invariants"), props=plan.get("props", ()), maxgens=plan.get("mc_maxgens"),
-                              simulate=plan.get("mc_simulate"), depth=plan.get("mc_depth", 14), seed=seed, timeout=plan.get("mc_timeout", 420))
+                              simulate=plan.get("mc_simulate"), depth=plan.get("mc_depth", 14), seed=seed, timeout=plan.get("mc_timeout", 200))
             out.add_model(r, "MhlHistoryMC/%s%s" % (scope, " (random walks)" if plan.get("mc_simulate") else ""))
         if plan.get("behaviours") is not None:
             behs = plan["behaviours"]
@@ -94,8 +94,8 @@ def history_campaign(out, pid, plans, pclauses, antecedent, seed, mclauses=None,
             n0 = len(behs)
             behs = [b for b in behs if SELECT[plan["select"]](b)]
             out.coverage["export_runs"][-1]["selected"] = {"rule": plan["select"], "kept": len(behs), "of": n0}
-        if not plan.get("limit") and len(behs) > 5000:
-            plan = dict(plan, limit=5000)       # no plan replays more than 5000 behaviours (seeded sample of the export)
+        if (not plan.get("limit") or plan["limit"] > 3000) and len(behs) > 3000:
+            plan = dict(plan, limit=3000)       # no plan replays more than 3000 behaviours (seeded sample of the export)
         if plan.get("limit") and len(behs) > plan["limit"]:
             import random
 
@@ -352,7 +352,7 @@ generic(
         dict(scope="ign", mode="simulate", num=40, depth=7, limit=300, mc=False),
         dict(scope="deep", mode="simulate", num=30, depth=8, maxops=12, maxgens=30, limit=300, mc=False),
     ],
-    thorough=[dict(scope="all", mode="simulate", num=20, depth=12, maxops=14, maxgens=60, limit=2500, mc=True, mc_simulate=100000, mc_timeout=300, mc_depth=16, mc_maxgens=60, invariants=INV_C02),
+    thorough=[dict(scope="all", mode="simulate", num=20, depth=12, maxops=14, maxgens=60, limit=2500, mc=True, mc_simulate=100000, mc_timeout=150, mc_depth=16, mc_maxgens=60, invariants=INV_C02),
              
         dict(scope="deep", mode="simulate", num=300, depth=10, maxops=14, maxgens=40, limit=3000, mc=False),
         dict(scope="tree", mode="simulate", num=400, depth=10, mc_maxgens=2, invariants=INV_C02),
@@ -376,7 +376,7 @@ generic(
         dict(scope="deep", mode="simulate", num=30, depth=8, maxops=12, maxgens=30, limit=400, mc=False),
         dict(scope="tiny", mode="exhaustive", maxops=4, limit=800, mc_maxgens=2, invariants=INV_C03),
     ],
-    thorough=[dict(scope="all", mode="simulate", num=20, depth=12, maxops=14, maxgens=60, limit=2500, mc=True, mc_simulate=100000, mc_timeout=300, mc_depth=16, mc_maxgens=60, invariants=INV_C03),
+    thorough=[dict(scope="all", mode="simulate", num=20, depth=12, maxops=14, maxgens=60, limit=2500, mc=True, mc_simulate=100000, mc_timeout=150, mc_depth=16, mc_maxgens=60, invariants=INV_C03),
              
         dict(scope="deep", mode="simulate", num=300, depth=10, maxops=14, maxgens=40, limit=4000, mc=False),
         dict(scope="tiny", mode="exhaustive", maxops=5, mc_maxgens=2, invariants=INV_C03),
@@ -398,7 +398,7 @@ generic(
         dict(scope="deep", mode="simulate", num=30, depth=8, maxops=12, maxgens=30, limit=400, mc=False),
         dict(scope="nest2f", mode="simulate", num=30, depth=8, limit=400, mc_maxgens=2, invariants=INV_C08),
     ],
-    thorough=[dict(scope="all", mode="simulate", num=20, depth=12, maxops=14, maxgens=60, limit=2500, mc=True, mc_simulate=100000, mc_timeout=300, mc_depth=16, mc_maxgens=60, invariants=INV_C08),
+    thorough=[dict(scope="all", mode="simulate", num=20, depth=12, maxops=14, maxgens=60, limit=2500, mc=True, mc_simulate=100000, mc_timeout=150, mc_depth=16, mc_maxgens=60, invariants=INV_C08),
              
         dict(scope="nest", mode="simulate", num=800, depth=11, mc_maxgens=3, invariants=INV_C08),
         dict(scope="deep", mode="simulate", num=300, depth=10, maxops=14, maxgens=40, limit=5000, mc_maxgens=12, invariants=INV_C08),
@@ -419,7 +419,7 @@ generic(
         dict(scope="igndh", mode="simulate", num=80, depth=8, limit=900, mc_maxgens=1, invariants=INV_C12 + ["Inv_C09_Identical"], variants=[{"names": "plain", "augment": True}, {"names": "space"}]),
         dict(scope="ignsf", mode="simulate", num=60, depth=8, limit=600, mc_maxgens=2, invariants=INV_C12),
     ],
-    thorough=[dict(scope="all", mode="simulate", num=20, depth=12, maxops=14, maxgens=60, limit=2500, mc=True, mc_simulate=100000, mc_timeout=300, mc_depth=16, mc_maxgens=60, invariants=INV_C12),
+    thorough=[dict(scope="all", mode="simulate", num=20, depth=12, maxops=14, maxgens=60, limit=2500, mc=True, mc_simulate=100000, mc_timeout=150, mc_depth=16, mc_maxgens=60, invariants=INV_C12),
              
         dict(scope="ign", mode="simulate", num=1200, depth=10, mc_maxgens=2, invariants=INV_C12, variants=[{"names": "plain"}, {"names": "mixed", "augment": True}]),
         dict(scope="igndh", mode="simulate", num=600, depth=10, limit=5000, mc_maxgens=2, invariants=INV_C12 + ["Inv_C09_Identical"], variants=[{"names": "plain", "augment": True}, {"names": "space"}]),
@@ -441,7 +441,7 @@ generic(
         # failing runs: a comment XML cannot represent
         dict(scope="nest", mode="simulate", num=40, depth=8, limit=300, mc=False, seed_offset=5, tag="x", variants=[{"names": "plain", "ctrl": True}, {"names": "unicode", "ctrl": True}]),
     ],
-    thorough=[dict(scope="all", mode="simulate", num=20, depth=12, maxops=14, maxgens=60, limit=2500, mc=True, mc_simulate=100000, mc_timeout=300, mc_depth=16, mc_maxgens=60, invariants=INV_C14),
+    thorough=[dict(scope="all", mode="simulate", num=20, depth=12, maxops=14, maxgens=60, limit=2500, mc=True, mc_simulate=100000, mc_timeout=150, mc_depth=16, mc_maxgens=60, invariants=INV_C14),
              
         dict(scope="cmds", mode="simulate", num=600, depth=12, mc_maxgens=2, invariants=INV_C14),
         dict(scope="nest", mode="simulate", num=300, depth=10, mc=False),
@@ -484,7 +484,7 @@ generic(
     "C09", "model_checking",
     quick=[dict(scope="dh", mode="simulate", num=80, depth=9, limit=1200, mc_maxgens=1, invariants=INV_C09),
            dict(scope="dhopt", mode="simulate", num=40, depth=9, limit=700, mc_maxgens=2, mc_simulate=100000, mc_timeout=45, mc_depth=12, invariants=INV_C09)],
-    thorough=[dict(scope="all", mode="simulate", num=20, depth=12, maxops=14, maxgens=60, limit=2500, mc=True, mc_simulate=100000, mc_timeout=300, mc_depth=16, mc_maxgens=60, invariants=INV_C09),
+    thorough=[dict(scope="all", mode="simulate", num=20, depth=12, maxops=14, maxgens=60, limit=2500, mc=True, mc_simulate=100000, mc_timeout=150, mc_depth=16, mc_maxgens=60, invariants=INV_C09),
              dict(scope="dh", mode="simulate", num=1500, depth=11, mc_maxgens=2, invariants=INV_C09),
              dict(scope="dhopt", mode="simulate", num=400, depth=10, limit=8000, mc_maxgens=2, invariants=INV_C09),
               dict(scope="dh6", mode="simulate", num=300, depth=10, mc=False)],
